@@ -204,6 +204,21 @@ def specRun (L : Nat) : List Char :=
   else if L = 7 then ['1', '1', '1', '3', '2', '2', '2']
   else List.replicate 4 '1' ++ List.replicate (L - 8) 'H' ++ List.replicate 4 '2'
 
+def hRun (n : Nat) : List Char := List.replicate n 'H'
+
+/-- the table the doc-string of `convert_dssp_to_martini` describes -/
+def documentedSsCg : List (Char × Char) :=
+  [('1', 'H'), ('2', 'H'), ('3', 'H'), ('H', 'H'), ('G', 'H'), ('I', 'H'),
+   ('B', 'E'), ('E', 'E'), ('T', 'T'), ('S', 'S'), ('C', 'C')]
+
+/-- the helix pattern table the doc-string describes: isolated runs of 1..7 (rewritten whole by
+`specRun`), then the start and the end of every longer run -/
+def documentedPatterns : List (List Char × List Char) :=
+  ((List.range 7).map fun i => ('.' :: hRun (i + 1) ++ ['.'], '.' :: specRun (i + 1) ++ ['.']))
+  ++ [('.' :: hRun 4, '.' :: List.replicate 4 '1'), (hRun 4 ++ ['.'], List.replicate 4 '2' ++ ['.'])]
+
+def countH (s : List Char) : Nat := s.count 'H'
+
 /-- run-based rewriting of a coarse-grained class string; `n` = length of the helix run that
 ends just before the current position -/
 def rewriteRuns : Nat → List Char → List Char
